@@ -281,8 +281,14 @@ def body_c11(tier, seed, rep, only_prop=False, scale=1):
     for k in range(common.count(tier, 1, 8)):
         nlab = 300 if tier == "quick" else rng.choice([400, 1000])
         cluster = rng.choice([150, 200])
-        ts = [500 + rng.random() * 0.001 for _ in range(cluster)] + [rng.uniform(0, 1000) * 50 for _ in range(nlab - cluster)]
-        spec = {"kind": "number", "data": [{"time": t, "width": rng.choice([10, 20, 5])} for t in ts],
+        # one conflict cluster of `cluster` labels at one instant (it spreads over at most cluster * 13 px from the axis start); every other
+        # label keeps clear of it and of its neighbours (grid with a little jitter), so that no solver block exceeds the cluster — the claim
+        # is "conflict clusters of up to 200 labels", larger ones are known finding F3
+        rest = nlab - cluster
+        gap = 42000.0 / rest
+        ts = [500 + rng.random() * 0.001 for _ in range(cluster)] + [7500 + (k + 0.5) * gap + rng.uniform(-7, 7) for k in range(rest)]
+        widths = [rng.choice([10, 5]) for _ in range(cluster)] + [rng.choice([10, 5] if gap * 0.4 < 30 else [10, 20, 5]) for _ in range(rest)]
+        spec = {"kind": "number", "data": [{"time": t, "width": w} for t, w in zip(ts, widths)],
                 "options": {"direction": rng.choice(["up", "right"]), "labella": {"algorithm": rng.choice(["overlap", "none"]), "maxPos": rng.choice([None, 20000])}, "domain": [0, 50000], "initialWidth": 20040, "initialHeight": 20040},
                 "opt_mode": "given"}
         rep.count("large-input")
